@@ -495,6 +495,8 @@ impl C10 {
         rep.count("probe.svr-iterations>1e4", (ticks.get() > 10_000) as u64);
         rep.count("probe.svr-iterations>1e5", (ticks.get() > 100_000) as u64);
         rep.count("probe.svr-iterations>1e6", (ticks.get() > 1_000_000) as u64);
+        rep.count("probe.svr-iterations>1e7", (ticks.get() > 10_000_000) as u64);
+        rep.count("probe.svr-iterations>2^24", (ticks.get() > (1 << 24)) as u64);
         rep.count("probe.svr-iterations>1e5*n", (ticks.get() > 100_000 * n as u64) as u64);
         if ticks.get() > 100_000 {
             rep.max(&format!("svr_slow_iters[{},C={},tol={},eps={},n={}]", case.kernel.kind, c_eff, tol_eff, eps_eff, n), ticks.get() as f64);
@@ -1036,6 +1038,18 @@ fn gen_case(batch: &str, index: u64, seed: u64) -> Case {
             let queries = (0..nq).map(|_| (0..p).map(|_| r.range(0.0, 4.0)).collect()).collect();
             Case { model: "svr".into(), x, y, kernel, c, tol: *pr.pick(&[1e-2, 1e-3]), epoch: 0, eps, f32m: false, queries, budget: 500_000_000, tape: TapeSpec::prng(tape_seed), kind: "svr-resonant".into(), ctor: (seed % 2) as u8 }
         }
+        "svr-marathon" => {
+            // converging fits that need 1e6..1e8 SMO updates: tiny n (each update is cheap), one feature of magnitude
+            // 300..1000 under the linear kernel (curvature 1e5..1e6), C chosen so that C * scale^2 (the number of
+            // updates a coefficient needs to reach its bound) is 5e6..3e7, targets that cannot be fitted
+            let n = pr.usize_in(4, 8);
+            let scale = logu(&mut pr, 300.0, 1000.0);
+            let u = logu(&mut pr, 5e6, 3e7);
+            let c = (u / (scale * scale)).min(100.0).max(0.1);
+            let x: Vec<Vec<f64>> = (0..n).map(|_| vec![scale * r.range(-1.0, 1.0)]).collect();
+            let y: Vec<f64> = (0..n).map(|_| r.range(-1.5, 1.5)).collect();
+            Case { model: "svr".into(), x, y, kernel: KSpec { kind: "linear".into(), gamma: 0.0, degree: 0.0, coef0: 0.0 }, c, tol: 1e-3, epoch: 0, eps: *pr.pick(&[0.0, 0.1]), f32m: false, queries: vec![], budget: 4_000_000_000, tape: TapeSpec::prng(tape_seed), kind: "svr-marathon".into(), ctor: (seed % 2) as u8 }
+        }
         "svr" | "svr-f32" => {
             let n = pr.usize_in(4, 40);
             let p = pr.usize_in(1, 5);
@@ -1148,6 +1162,7 @@ impl Property for C10 {
             Batch { name: "svr-resonant", count: if q { 20_000 } else { 1_000_000 }, simulated: false, exhaustive: false, note: "schedule-free: tiny lattice / continuous fits whose C is tuned to the data — equal to, or 2^-j (j 20..52) above or below, the unclipped pair optimum of two training rows — and whose targets sit 2^-j off the lattice: the instants where an SMO step lands on a bound" },
             Batch { name: "svr-hard", count: if q { 48 } else { 1_500 }, simulated: false, exhaustive: false, note: "schedule-free: the slowly converging corner (C = 100, linear / quadratic / RBF kernels on features in [-3,3], n 20..60, tol 1e-3) with a 4e9-iteration fallback budget; few runs because each takes up to seconds" },
             Batch { name: "svr-hard-tight", count: if q { 12 } else { 600 }, simulated: false, exhaustive: false, note: "same corner at tol 1e-4, quadratic kernel, low noise (up to ~2e7 iterations per fit)" },
+            Batch { name: "svr-marathon", count: if q { 12 } else { 480 }, simulated: false, exhaustive: false, note: "schedule-free: converging fits that need 1e6..1e8 SMO updates (4..8 rows, one feature of magnitude 300..1000, linear kernel, C * scale^2 = 5e6..3e7): optimality must hold at termination however long it takes" },
             Batch { name: "svr-large-features", count: if q { 1_500 } else { 60_000 }, simulated: false, exhaustive: false, note: "schedule-free: large kernel curvature (linear kernel on features of magnitude 30..300, quadratic on ~10), noise below epsilon, f32 and f64" },
             Batch { name: "svr-f32-resolution", count: if q { 1_500 } else { 60_000 }, simulated: false, exhaustive: false, note: "schedule-free: f32 fits whose tolerance lies below the floating-point resolution of the targets (|y| 1e3..1e5, tol 1e-3..1e-4) — the region of the repaired livelock" },
             Batch { name: "svr-f32", count: if q { 1_000 } else { 100_000 }, simulated: false, exhaustive: false, note: "schedule-free, single precision" },
